@@ -14,7 +14,7 @@ PROP = "C05"
 
 def s1_group(src, nmembers, times, max_faults, assignor):
     cfg = {"member": {"auto_commit": True, "auto_commit_interval_ms": 150, "assignors": [assignor], "max_poll_interval_ms": 300},
-           "extra_events": ("pause_poll",), "pause_for": 0.7}
+           "extra_events": ("pause_poll",), "pause_for": 0.7, "vary_listener_style": True}
     scenario, plan = GO.standard_scenario(src, cfg, nmembers, times, quiet=2.5,
                                           fault_apis=(11, 14, 12), max_fault_requests=4, max_faults=max_faults)
     res = groupsim.run_group(src, cfg, scenario)
@@ -28,7 +28,7 @@ def s1_group(src, nmembers, times, max_faults, assignor):
 
 def harnesses(tier):
     q = tier == "quick"
-    confs = [(2, [0.05, 0.3, 0.62], 0, "roundrobin"), (2, [0.3], 0, "range"), (2, [0.3], 0, "sticky")] if q else \
+    confs = [(2, [0.05, 0.3, 0.62], 0, "roundrobin"), (2, [0.3], 0, "range"), (2, [0.3], 0, "sticky"), (2, [0.3], 0, "rrsplit")] if q else \
         [(2, [0.05, 0.2, 0.3, 0.45, 0.62, 0.9], 1, "roundrobin"), (3, [0.05, 0.3, 0.62], 1, "range"), (3, [0.05, 0.3], 0, "sticky")]
     hs = []
     for n, times, mf, asg in confs:
